@@ -4,6 +4,7 @@ package node
 
 import (
 	"context"
+	"os"
 	"database/sql"
 	"fmt"
 	"math/rand"
@@ -14,7 +15,13 @@ import (
 	"github.com/pegnet/pegnetd/node/pegnet"
 )
 
-const confTrials = 60
+// seeded trials per leaf: 60 in the quick tier, 400 in the thorough tier (VERIF_TIER=thorough, set by govc check)
+var confTrials = func() int {
+	if os.Getenv("VERIF_TIER") == "thorough" {
+		return 400
+	}
+	return 60
+}()
 
 var confAmounts = []uint64{0, 1, 2, 7, 100000000, 1 << 40, 1 << 62}
 
